@@ -43,7 +43,14 @@ Fixpoint unstack (t : list odesc) (arg : string) (chars : string) : list string 
 Definition phase1_word (t : list odesc) (arg : string) : list string :=
   match arg with
   | String "-" (String "-" _) =>
-      (match split_eq1 arg with (a, Some b) => [a; b] | (_, None) => [arg] end)
+      (* `--opt=V` is split only when --opt takes a parameter: a flag has no `=VALUE` part (K52, fixed) *)
+      (match split_eq1 arg with
+       | (a, Some b) => match ofind t a with
+                        | Some d => if is_withparam d then [a; b] else [arg]
+                        | None => [arg]
+                        end
+       | (_, None) => [arg]
+       end)
   | String "-" r => unstack t arg r
   | _ => [arg]
   end.
@@ -101,6 +108,16 @@ Example norm_bracket_value :
   normalize_options t ["-o"; "]"; "x"] = Some ["--out=]"; "x"]
   /\ normalize_options t ["--out=|"] = Some ["--out=|"]
   /\ normalize_usage_words t ["["; "-o"; "]"; "x"] = Some ["["; "--out=]"; "]"; "x"].
+Proof. repeat split; reflexivity. Qed.
+
+(* a flag given with `=VALUE` is not an option the script knows: the arguments are rejected (K52, fixed:
+   the value used to become a positional) *)
+Example norm_flag_with_value_rejected :
+  let t := [ {| od_kind := OSimple; od_short := Some "-v"; od_long := Some "--verbose" |};
+             {| od_kind := OWithParam None; od_short := None; od_long := Some "--out" |} ] in
+  normalize_options t ["--verbose=yes"; "x"] = None
+  /\ normalize_options t ["--out=yes"; "x"] = Some ["--out=yes"; "x"]
+  /\ normalize_options t ["--nope=1"] = None.
 Proof. repeat split; reflexivity. Qed.
 
 (* K12: a valued option in last position takes the FIRST word as its value *)
